@@ -125,6 +125,30 @@ Theorem C20_setup_a64_ok :
 Proof. exact setup_a64_ok. Qed.
 Print Assumptions C20_setup_a64_ok.
 
+(* End to end: n <= 5 (x86-64) / n <= 7 (AArch64) int64 values given in decimal on the command line;
+   if at the call the driver makes the registers are as the calling convention says (entry_regs: the
+   trusted link between the C call and the assembly entry), then after the prologue the integer
+   register of parameter i holds the i-th value and HEAP holds the heap pointer. *)
+Theorem C20_x86_arguments_end_to_end :
+  forall n vs asm_main prog effects heap (rf : regfile) havoc,
+    (n <= 5)%nat -> List.length vs = n -> Forall in_i64 vs ->
+    nth_error X86RT.setup_effects n = Some effects ->
+    (forall args, In args (d_calls (driver n asm_main (prog :: map decimal vs))) -> entry_regs x86_arg heap args rf) ->
+    let rf' := exec_effects effects havoc 0 rf in
+    (forall i, (i < n)%nat -> rf' (x86_param_reg i) = nth i vs 0) /\ rf' X86C.HEAP = heap.
+Proof. exact x86_arguments_end_to_end. Qed.
+Print Assumptions C20_x86_arguments_end_to_end.
+
+Theorem C20_a64_arguments_end_to_end :
+  forall n vs asm_main prog effects heap (rf : regfile) havoc,
+    (n <= 7)%nat -> List.length vs = n -> Forall in_i64 vs ->
+    nth_error A64RT.setup_effects n = Some effects ->
+    (forall args, In args (d_calls (driver n asm_main (prog :: map decimal vs))) -> entry_regs Z.of_nat heap args rf) ->
+    let rf' := exec_effects effects havoc 0 rf in
+    (forall i, (i < n)%nat -> rf' (a64_param_reg i) = nth i vs 0) /\ rf' A64C.HEAP = heap.
+Proof. exact a64_arguments_end_to_end. Qed.
+Print Assumptions C20_a64_arguments_end_to_end.
+
 (* The transliterated move_arguments functions are the code: same lists for every supported n, panic
    beyond; supported numbers 0..5 and 0..7; number_of_arguments is passed through unchanged. *)
 Theorem C20_move_arguments_model_is_code :
